@@ -37,6 +37,23 @@ import (
 type frameSt struct {
 	cands []*kdisruption.Candidate
 	n     int
+	mode  string // context mode of the current Method step: "" | cancelled | deadline
+	polls int
+}
+
+// frameCtx wraps the context of a Method step: already cancelled, or reporting DeadlineExceeded after `polls` polls.
+func (s *sim) frameCtx(ctx context.Context) context.Context {
+	st := s.frame()
+	switch st.mode {
+	case "cancelled":
+		c2, cancel := context.WithCancel(ctx)
+		cancel()
+		return c2
+	case "deadline":
+		left := st.polls
+		return pollCtx{Context: ctx, left: &left}
+	}
+	return ctx
 }
 
 var frameState = map[*sim]*frameSt{}
